@@ -435,6 +435,20 @@ func c09Deep(c *vk.Ctx, i int) {
 			}
 			return a.id > b.id
 		}},
+		// heavy ties over more than a thousand matches: broken by index order (= insertion order = id order here)
+		{"k asc, ties by index order", search.SortOrder{search.SortBy(search.Field("k"))}, func(a, b dd) bool {
+			if a.k != b.k {
+				return a.k < b.k
+			}
+			return a.id < b.id
+		}},
+		{"k desc, ties by index order", search.SortOrder{search.SortBy(search.Field("k")).Desc()}, func(a, b dd) bool {
+			if a.k != b.k {
+				return a.k > b.k
+			}
+			return a.id < b.id
+		}},
+		{"score (all equal), ties by index order", search.SortOrder{search.SortBy(search.DocumentScore()).Desc()}, func(a, b dd) bool { return a.id < b.id }},
 	}
 	pairs := [][2]int{{1001, 0}, {20, 995}, {20, 1000}, {20, total - 30}, {2000, 100}, {500, 600}, {1, 1000}, {10, 999}, {total, 0}, {total + 5, 3}, {50, 1200 % total}, {3, total - 1}}
 	for _, o := range orders {
